@@ -179,6 +179,19 @@ CLAIMED = {
              "read / membership / copy(), the wrapped database during and after the block, buffer size, all exit kinds and positions.",
         technique="Lean 4 proof (insertion-ordered dict model, induction over buffered actions) + correspondence check",
         design_ref="6/C17"),
+    "C13": dict(
+        text="Theorems (all canonical binary tries = all reachable ones, all keys/prefixes, ALL lists of offered byte strings; every hash "
+             "with 32-byte output; run-level NoCollision, no injectivity) on the transcription of branches.py and a Layer-D reader that "
+             "parses encoded nodes: get_branch refuses only unstored keys related to a stored key (branch_refusal; exact "
+             "characterisation branch_refusal_iff - the first statement tried, 'iff related', was machine-refuted: a key ending "
+             "strictly inside a kv path is not refused); the branch validates the trie's answer for present and absent keys "
+             "(branch_valid); NO offered list - altered, truncated, other key, other trie - makes if_branch_valid confirm an answer "
+             "the trie does not give (branch_sound, via bgetD_sound); check_if_branch_exist(p) iff some stored key starts with p "
+             "(exist_iff); get_trie_nodes = exactly the reachable nodes (trie_nodes_exact); a witness contains only trie nodes, is "
+             "refused only when the prefix runs past a stored key, and answers get(k) for every k under the prefix (witness_*). "
+             "Tie: tuples returned, validity outcomes incl. exception classes on a corruption stream, against the model.",
+        technique="Lean 4 proof (Layer-D reader vs tree induction, path-node inclusion lemmas) + correspondence check incl. forged branches",
+        design_ref="6/C13"),
 }
 REASON_PENDING = "check not built yet in this revision (work in progress, see DESIGN.md section 10)"
 
